@@ -792,7 +792,14 @@ with PolarsImpl.impl_store.impl_manager as impl:
         return x.log10()
 
     @impl(ops.clip)
-    def _clip(x, lower, upper):
+    def _clip(x, lower, upper, *, _sig):
+        if not (_sig[0].is_int() or _sig[0].is_float()) and types.without_const(_sig[0]) not in (
+            types.Date(),
+            types.Datetime(),
+            types.Duration(),
+        ):
+            # polars' clip only supports numeric and temporal types
+            return pl.when(x.is_not_null()).then(pl.max_horizontal(pl.min_horizontal(x, upper), lower))
         return x.clip(lower, upper)
 
     @impl(ops.rand)
